@@ -248,3 +248,27 @@ Example C18_example_halfspace : half_project [3; 4] 25 1 [0; 0] = POk [3; 4].
 Proof. exact half_example. Qed.
 Example C18_example_box_zero_width : box_project [(0, 1); (2, 2)] [5; -1] = POk [1; 2].
 Proof. exact box_example. Qed.
+
+(* ---- utils.project regenerated from utils.py on every run (Gen/Utils.v, translator/utils_tx.py: the options dictionary and its update, the
+        two lambdas of the minimize call, the start point, bounds and constraints handed on, the report returned whatever it says).
+        What it ASKS of the optimiser: minimise the squared distance to p, with the exact gradient 2 (s - p); so a point that minimises the
+        objective over the feasible set is a nearest feasible point.  Whether SLSQP delivers that point is the PARTIAL part (explored by
+        the check with an LP / KKT certificate on real calls). ---- *)
+From DK.Model Require Import Solve SolveOps.
+From DK.Gen Require Import Utils.
+From DK.Proofs Require Import GenUtils.
+Theorem C18_source_utils_project : forall (A : Type) (NA : Num A) (minimize : problem A -> optresult A) (pc : projcall A),
+  project_gen minimize pc = uproject_model minimize pc /\ project_problem_gen pc = uproject_problem pc
+  /\ project_defaults_gen (A:=A) = uproject_defaults /\ forall user, project_options_gen user = uproject_options user.
+Proof. intros A NA. exact (@gen_project A NA). Qed.
+Theorem C18_utils_project_asks_for_the_nearest_point : forall (pc : projcall R) (s : list R),
+  pb_fun (project_problem_gen pc) s = dist2 s (pc_p pc)
+  /\ (length (pc_p pc) = length s -> grad_at (pb_fun (project_problem_gen pc)) (pb_jac (project_problem_gen pc) s) s)
+  /\ pb_bounds (project_problem_gen pc) = pc_bounds pc /\ pb_cons (project_problem_gen pc) = pc_cons pc /\ pb_x0 (project_problem_gen pc) = pc_x0 pc.
+Proof.
+  intros pc s. split; [exact (proj1 (uproject_objective pc s))|]. split; [exact (uproject_gradient pc s)|]. repeat split.
+Qed.
+Theorem C18_a_minimiser_of_that_objective_is_a_nearest_feasible_point : forall (pc : projcall R) (C : list R -> Prop) x,
+  (forall y, C y -> pb_fun (project_problem_gen pc) x <= pb_fun (project_problem_gen pc) y) ->
+  forall y, C y -> dist2 x (pc_p pc) <= dist2 y (pc_p pc).
+Proof. intros pc C x. exact (uproject_minimiser_is_nearest pc C x). Qed.
